@@ -18,3 +18,4 @@ _Bool g_in_processing;
 #ifdef UNIT_QUEUE
 int g_pred[2]; _Bool g_verdict[2];
 #endif
+_Bool g_dirty;
